@@ -244,10 +244,13 @@ class Ref:
 
     def cmdseq(self, seq, depth):
         out = []
+        flat = []
         for cmd in seq:
-            if len(cmd) != 1:
-                raise NotInScope("command with several entries")
-            (k, v), = cmd.items()
+            kinds = {k in self.reg["SuitCondition"] for k in cmd}
+            if len(cmd) == 0 or len(kinds) != 1:
+                raise NotInScope("empty command item, or conditions and directives under one item")
+            flat += list(cmd.items())         # several commands of one kind under one item: all of them, in order
+        for k, v in flat:
             if k in self.reg["SuitCondition"]:
                 out += [ct.uint(self.reg["SuitCondition"][k]), self.policy(v)]
                 continue
